@@ -468,6 +468,19 @@ func runJob(g *group, fn string, shard, nshard int, opt Options) *JobResult {
 			eng.Replace[k] = v
 		}
 	}
+	// "//verif:noreplace <full name>" in the file that defines this harness: run the real function here although
+	// another harness file of the directory replaces it
+	for _, f := range g.files {
+		src := string(f.Src)
+		if !strings.Contains(src, "func "+fn+"(") {
+			continue
+		}
+		for _, line := range strings.Split(src, "\n") {
+			if fs := strings.Fields(line); len(fs) == 2 && fs[0] == "//verif:noreplace" {
+				delete(eng.Replace, fs[1])
+			}
+		}
+	}
 	if opt.Tier == "thorough" {
 		eng.WitnessMax = 40
 	}
